@@ -161,12 +161,29 @@ func (s *DiscoveryStrategy) GetRoutableEndpoints(
 			"model", modelName,
 			"error", err)
 
-		// use original endpoints as fallback
-		return healthyEndpoints, ports.NewRoutingDecision(
-			s.Name(),
-			ports.RoutingActionFallback,
-			constants.RoutingReasonDiscoveryErrorFallback,
-		), nil
+		// the model is still not known to be served anywhere: only fall back to the
+		// original healthy endpoints where the configured fallback behaviour allows it
+		switch s.options.FallbackBehavior {
+		case constants.FallbackBehaviorNone, constants.FallbackBehaviorCompatibleOnly:
+			return nil, ports.NewRoutingDecision(
+					s.Name(),
+					ports.RoutingActionRejected,
+					constants.RoutingReasonModelUnavailableAfterDiscovery,
+				), domain.NewModelRoutingError(
+					modelName,
+					s.Name(),
+					"rejected",
+					len(healthyEndpoints),
+					modelEndpoints,
+					fmt.Errorf("model %s not found and endpoints could not be re-read after discovery: %w", modelName, err),
+				)
+		default:
+			return healthyEndpoints, ports.NewRoutingDecision(
+				s.Name(),
+				ports.RoutingActionFallback,
+				constants.RoutingReasonDiscoveryErrorFallback,
+			), nil
+		}
 	}
 
 	// note: we can't get updated model endpoints here without registry access
